@@ -55,4 +55,5 @@ class SubProcess(zope.testrunner.feature.Feature):
         for test, exc_info in self.runner.errors:
             print(re.sub(r'[\r\n]+', ' ', str(test).strip()),
                   file=self.original_stderr)
+        print('end of report', file=self.original_stderr)
         self.original_stderr.flush()
